@@ -168,14 +168,14 @@ func vfE2Plan(seed int64, prop string, i int) *vfE2Params {
 		p.Noise = 2
 	}
 	p.NoiseOps = rng.Range(4, 30)
-	if (prop == "C01" || prop == "C17") && i%3 == 2 {
+	if (prop == "C01" || prop == "C17") && (i%3 == 2 || i%6 == 3) {
 		// key-table churn profile: every round starts with all clients of a partition racing for a
 		// key that does not exist yet, in one or two fast-key slots, at full speed (no hook delays),
 		// while noise clients create and remove other keys of the same slots all the time
 		p.Profile = "churn"
 		p.GoMaxProcs = []int{4, 16, 16}[rng.Intn(3)]
 		p.FastKeys = uint([]int{1, 1, 2}[rng.Intn(3)])
-		if i%6 == 5 {
+		if i%6 == 3 {
 			// 64 slots; in four slots no shared key lives in, a pair of noise clients arranges that one
 			// key sits in the slow map while the slot's fast key is created and removed all the time
 			p.Profile = "churn-pairs"
@@ -217,6 +217,13 @@ func vfE2Plan(seed int64, prop string, i int) *vfE2Params {
 		p.Noise++
 	}
 	p.RngSeed = rng.U64()
+	if (prop == "C01" || prop == "C17") && i%16 == 1 {
+		// white-box micro-stress of the key table itself (no requests): see vfE2KeyTable
+		p.Profile = "keytable"
+		p.GoMaxProcs = 16
+		p.FastKeys = uint([]int{1, 2, 4}[rng.Intn(3)])
+		p.Shards = 1
+	}
 	return p
 }
 
@@ -1447,6 +1454,190 @@ func vfE2RunHistory(p *vfE2Params, scratch string) *vfE2Hist {
 	return h
 }
 
+// ---------------------------------------------------------------- key-table micro-stress
+
+// vfE2KeyTable hammers the lock-free key table (GetOrNewLockManager / GetLockManager /
+// RemoveLockManager) from many goroutines, under exactly the conditions of the server's own call
+// sites (removal only of a manager without references, under its shard mutex), and checks three
+// invariants no request history can violate without breaking C01 / C17:
+//   1. concurrent first requests for a key all get the same manager;
+//   2. a live manager handed out for a key stays reachable through the key tables;
+//   3. a key that lives in the slow map is found while the fast key of its slot comes and goes.
+func vfE2KeyTable(p *vfE2Params, scratch string) *vfE2Hist {
+	runtime.GOMAXPROCS(p.GoMaxProcs)
+	h := &vfE2Hist{Params: p, Drained: true, Counters: map[string]int64{}}
+	dir := filepath.Join(scratch, "data")
+	_ = os.RemoveAll(dir)
+	in, err := vfNewLeader(vfInstCfg{Dir: dir, Manual: true, NDb: 1, DBConcurrent: 1, FastKeys: p.FastKeys})
+	if err != nil {
+		h.Incon = append(h.Incon, "cannot start the leader: "+err.Error())
+		return h
+	}
+	db := in.dbs[0]
+	slots := uint32(p.FastKeys)
+	if slots > 4 {
+		slots = 4
+	}
+	keys := vfE2SlotKeys(slots, 0, 1, 16000) // everything in slot 0 (a quarter of the 16-bit key indices at 4 slots)
+	cmdOf := func(k int) *protocol.LockCommand { return &protocol.LockCommand{LockKey: vfKeyBytes(0, k)} }
+	remove := func(m *LockManager, key [16]byte) {
+		m.glock.Lock()
+		if m.lockKey == key && atomic.LoadUint32(&m.refCount) == 0 {
+			db.RemoveLockManager(m)
+		}
+		m.glock.Unlock()
+	}
+	var fmu sync.Mutex
+	find := func(clause, format string, a ...interface{}) {
+		fmu.Lock()
+		defer fmu.Unlock()
+		for _, prop := range []string{"C01", "C17"} {
+			h.Online = append(h.Online, vfE2Finding{Prop: prop, Clause: clause, Detail: fmt.Sprintf(format, a...)})
+		}
+	}
+	var stop int32
+	var bg sync.WaitGroup
+	for n := 0; n < 6; n++ { // other keys of the slot come and go all the time (contention on the key-table mutex)
+		bg.Add(1)
+		go func(n int) {
+			defer bg.Done()
+			for i := 0; atomic.LoadInt32(&stop) == 0; i++ {
+				c := cmdOf(keys[8000+n*1000+i%1000])
+				remove(db.GetOrNewLockManager(c), c.LockKey)
+			}
+		}(n)
+	}
+	rounds := 3000
+	// ---- 1: concurrent first requests while the slot's fast key leaves
+	for r := 0; r < rounds && len(h.Online) == 0; r++ {
+		x := cmdOf(keys[15000])
+		mx := db.GetOrNewLockManager(x)
+		k := cmdOf(keys[r%4000])
+		var got [8]*LockManager
+		var wg sync.WaitGroup
+		start := make(chan struct{})
+		for g := 0; g < 8; g++ {
+			wg.Add(1)
+			go func(g int) {
+				defer wg.Done()
+				<-start
+				got[g] = db.GetOrNewLockManager(k)
+			}(g)
+		}
+		wg.Add(1)
+		go func() {
+			defer wg.Done()
+			<-start
+			remove(mx, x.LockKey)
+		}()
+		close(start)
+		wg.Wait()
+		h.Counters["keytable_rounds_first_requests"]++
+		for g := 1; g < 8; g++ {
+			if got[g] != got[0] {
+				find("keytable-two-managers", "round %d: eight concurrent first requests for one key were given two different lock managers (%p in the fast slot: %v, %p in the fast slot: %v) while the slot's previous fast key was being removed; %d fast-key slots", r, got[0], db.fastLocks[0].manager == got[0], got[g], db.fastLocks[0].manager == got[g], slots)
+				break
+			}
+		}
+		seen := map[*LockManager]bool{}
+		for _, m := range got {
+			if m != nil && !seen[m] {
+				seen[m] = true
+				remove(m, k.LockKey)
+			}
+		}
+	}
+	// ---- 2: the key's manager is removed while new requests for the key arrive
+	pin := cmdOf(keys[15001])
+	mpin := db.GetOrNewLockManager(pin) // occupies the fast slot if it is free: the keys below live in the slow map
+	for r := 0; r < rounds && len(h.Online) == 0; r++ {
+		k := cmdOf(keys[4000+r%4000])
+		old := db.GetOrNewLockManager(k)
+		var got [4]*LockManager
+		var wg sync.WaitGroup
+		start := make(chan struct{})
+		wg.Add(1)
+		go func() {
+			defer wg.Done()
+			<-start
+			remove(old, k.LockKey)
+		}()
+		for g := 0; g < 4; g++ {
+			wg.Add(1)
+			go func(g int) {
+				defer wg.Done()
+				<-start
+				got[g] = db.GetOrNewLockManager(k)
+			}(g)
+		}
+		close(start)
+		wg.Wait()
+		h.Counters["keytable_rounds_remove_vs_request"]++
+		reach := db.GetLockManager(k)
+		seen := map[*LockManager]bool{}
+		for g, m := range got {
+			if seen[m] {
+				continue
+			}
+			seen[m] = true
+			if atomic.LoadUint32(&m.refCount) != 0xffffffff && m.lockKey == k.LockKey && m != reach {
+				find("keytable-unreachable-manager", "round %d: request %d was given lock manager %p for the key (live, key matches) but a look-up of the key now yields %p: the manager is unreachable (its key's old manager was being removed at the same time); %d fast-key slots", r, g, m, reach, slots)
+				break
+			}
+		}
+		for m := range seen {
+			remove(m, k.LockKey)
+		}
+	}
+	atomic.StoreInt32(&stop, 1)
+	bg.Wait()
+	remove(mpin, pin.LockKey)
+	// ---- 3: a slow-map key must be found while fast keys of its slot are created and removed
+	if len(h.Online) == 0 {
+		pin2 := cmdOf(keys[15002])
+		mp := db.GetOrNewLockManager(pin2)
+		k := cmdOf(keys[15003])
+		mk := db.GetOrNewLockManager(k) // created while the slot is taken: slow map; stays alive for the whole scenario
+		remove(mp, pin2.LockKey)
+		var stop3 int32
+		var wg sync.WaitGroup
+		for n := 0; n < 3; n++ {
+			wg.Add(1)
+			go func(n int) {
+				defer wg.Done()
+				for i := 0; atomic.LoadInt32(&stop3) == 0; i++ {
+					c := cmdOf(keys[8000+n*1000+i%1000])
+					remove(db.GetOrNewLockManager(c), c.LockKey)
+				}
+			}(n)
+		}
+		var miss int64
+		var lookups int64
+		for g := 0; g < 4; g++ {
+			wg.Add(1)
+			go func() {
+				defer wg.Done()
+				for i := 0; i < 400000 && atomic.LoadInt64(&miss) == 0; i++ {
+					atomic.AddInt64(&lookups, 1)
+					if m := db.GetLockManager(k); m != mk {
+						atomic.AddInt64(&miss, 1)
+						find("keytable-lookup-miss", "a look-up of a key whose manager %p lives in the slow map (and is never removed) returned %p while fast keys of the same slot were being created and removed; %d fast-key slots", mk, m, slots)
+						return
+					}
+				}
+				atomic.StoreInt32(&stop3, 1)
+			}()
+		}
+		wg.Wait()
+		atomic.StoreInt32(&stop3, 1)
+		h.Counters["keytable_lookups_under_churn"] = lookups
+		remove(mk, k.LockKey)
+	}
+	h.Counters["keytable_stress_runs"] = 1
+	in.Close()
+	return h
+}
+
 // ---------------------------------------------------------------- offline judges
 
 type vfE2LinOpIn struct {
@@ -1995,7 +2186,25 @@ func vfE2Report(env *vfEnv, part *vfPart, h *vfE2Hist, v *vfE2Verdict, replayPat
 		}
 		seen[f.Clause] = true
 		if wrote == "" {
-			doc := map[string]interface{}{"engine": "E2", "property": prop, "case": p.Case, "seed": p.Seed, "history": h, "findings": v.Findings}
+			// the replay keeps every operation on the shared keys; of the noise clients' private keys
+			// (tens of thousands of uneventful probes) only those on which something but SUCCED happened
+			hh := *h
+			hh.Ops = nil
+			odd := map[int]bool{}
+			for _, op := range h.Ops {
+				if t := op.terminal(); op.Part < 0 && (t == nil || t.Result != protocol.RESULT_SUCCED || len(op.Replies) > 1) {
+					odd[op.Key] = true
+				}
+			}
+			omitted := 0
+			for _, op := range h.Ops {
+				if op.Part >= 0 || odd[op.Key] {
+					hh.Ops = append(hh.Ops, op)
+				} else {
+					omitted++
+				}
+			}
+			doc := map[string]interface{}{"engine": "E2", "property": prop, "case": p.Case, "seed": p.Seed, "history": &hh, "findings": v.Findings, "uneventful_noise_operations_omitted": omitted}
 			wrote = vfWriteReplay(env, fmt.Sprintf("e2-case%d.json", p.Case), doc)
 		}
 		part.Violate(vfViolation{Prop: prop, Clause: "e2/" + f.Clause, Detail: f.Detail, Case: p.Case, Replay: wrote})
@@ -2022,7 +2231,12 @@ func TestVerif_E2Child(t *testing.T) {
 	env := vfGetEnv(p.Prop)
 	part := vfNewPart()
 	part.known = vfLoadKnown(env)
-	h := vfE2RunHistory(p, env.Scratch)
+	var h *vfE2Hist
+	if p.Profile == "keytable" {
+		h = vfE2KeyTable(p, env.Scratch)
+	} else {
+		h = vfE2RunHistory(p, env.Scratch)
+	}
 	v := vfE2Judge(h, os.Getenv("VERIF_E2_LINCHK"), env.Scratch)
 	vfE2Report(env, part, h, v, "")
 	ob, _ := json.Marshal(&vfE2ChildOut{Part: part})
@@ -2238,7 +2452,7 @@ func vfE2Stage(env *vfEnv, prop string, part *vfPart) {
 		}
 		return
 	}
-	n := env.N(18, 640)
+	n := env.N(18, 400)
 	workers := 8
 	if env.Thorough() {
 		workers = 10
